@@ -395,6 +395,9 @@ func (r *sgRun) exec(i int, op sgOp) {
 		if k < 0 {
 			k = -k
 		}
+		if op.A == 1<<20 {
+			k = len(ps.inbox) - 1 // the newest entry
+		}
 		m := ps.inbox[k]
 		if op.B != 1 {
 			ps.inbox = append(ps.inbox[:k], ps.inbox[k+1:]...)
